@@ -24,10 +24,12 @@ CLAIMED = {
          'read the second time are the values read or created the first time, because declarations, sow and perturb only extend the tree; refuted with a witness for programs that '
          'overwrite); a clash between two submodules, a submodule and a variable, or two variables of one collection is NameInUse while the same name in two collections is allowed; a missing '
          'parameter under an immutable params collection raises (ScopeParamNotFound / ScopeCollectionNotFound) and a wrongly shaped one raises ScopeParamShapeError, never a '
-         're-initialisation; the k-th unnamed child of class K is named K_k under the parent path. The remaining sentences (a child applied on its sub-tree equals the child inside a parent; '
-         'eval_shape / jit / lazy_init give the same structure, shapes and dtypes) are decided per run by the correspondence (the executable model predicts each of these runs) and by '
+         're-initialisation; the k-th unnamed child of class K is named K_k under the parent path; a submodule applied on its own sub-tree computes what it computes inside its parent - running '
+         'a module at scope path p on a tree V and at the root on the dicts V holds at p give the same output, and the variables the standalone run leaves at q are those the inner run leaves '
+         'at p ++ q (a simulation under a path-prefix relation, for any split of the path). The remaining sentence (eval_shape / jit / lazy_init give the same structure, shapes and dtypes) '
+         'and modules passed as attributes and shared between parents are decided per run by the correspondence (the executable model predicts each of these runs) and by '
          'implementation oracles.',
-    note='Trusted: Coq kernel, vm_compute, harness, jaxcompat. Not proved: the standalone-child simulation and shape-parametricity. A write below a leaf (a variable where a scope '
+    note='Trusted: Coq kernel, vm_compute, harness, jaxcompat. Not proved: shape-parametricity (eval_shape / lazy_init); RNG keys differ between the standalone and the inner run by design (they are a function of the scope path). A write below a leaf (a variable where a scope '
          'dict is expected) is an error in the model as in the code. Not in the program grammar: setup-style modules, bind/unbind, lists of submodules, share_scope. lazy_init is only '
          'compared for programs without input-dependent variable writes (documented LazyInitError). No axioms.',
     technique='Coq proof (two-run simulation over the fuelled interpreter, tree-extension invariant, step-level facts) + per-run model-vs-implementation correspondence by vm_compute + implementation oracles',
